@@ -261,6 +261,7 @@ func init() { streams["C02"] = runC02 }
 func runC02(r *Run) {
 	c02TypedValues(r)
 	c02PaddedValues(r)
+	c02DirectiveValues(r)
 	r.Imports = []string{"Model.Tok"}
 	r.Rule("directive-free fragments and full documents generated from a grammar of parser-stable HTML (block, inline, void, list, explicit table, pre / textarea, script / style elements; attributes and text written with character references &amp; &lt; &gt; &quot; &#39; &#x3c; &nbsp; &copy;; doctype): " +
 		"parse(template) and parse(render(template)) with x/net/html must be the same document, whitespace and comments aside; for fragments inside the model's vocabulary the theorem's reading function (tokenize, normalise, build, decode) is evaluated in Coq on the bytes the implementation wrote and must return the parsed template; " +
@@ -412,6 +413,28 @@ func c02PaddedValues(r *Run) {
 			if err != nil || sink != want {
 				r.Fail("an interpolated attribute is not its neighbours plus the value's string form", map[string]string{"oracle": "padded-interp", "position": t.name},
 					map[string]any{"template": t.tpl, "value": v, "expected": want, "parsed": sink, "output": out, "err": fmt.Sprint(err)})
+			}
+		}
+	}
+}
+
+// a value shown by v-text / v-html is shown once: mustache-looking text inside the value stays text
+func c02DirectiveValues(r *Run) {
+	for _, v := range []string{"Hello {{ name }}!", "{{ secret }}", "a {{ 1 + 1 }} b", "{{", "}} {{", "{{ name | upper }}"} {
+		for _, t := range []struct{ name, tpl, want string }{
+			{"v-text", `<p data-m="1" v-text="v">old</p>`, v},
+			{"v-html", `<div data-m="1" v-html="h">old</div>`, "[" + v + "]"},
+			{"v-text-in-loop", `<ul><li v-for="x in vs" data-m="1" v-text="x">old</li></ul>`, v},
+			{"v-html-in-branch", `<p v-if="no">n</p><div v-else data-m="1" v-html="h">old</div>`, "[" + v + "]"},
+			{"v-html-on-template", `<section data-m="1"><template v-html="h"></template></section>`, "[" + v + "]"},
+		} {
+			out, err := c03RenderAny(t.tpl, map[string]any{"v": v, "h": "<code>[" + v + "]</code>", "vs": []any{v}, "no": false, "name": "World", "secret": "LEAKED"})
+			_, sink, found := c01Parse(out, "1", "")
+			r.Eval("directive-value:"+t.name+":"+v, true, nil)
+			r.Count("stream:directive-values(oracle only)")
+			if err != nil || !found || strings.TrimSpace(sink) != strings.TrimSpace(t.want) {
+				r.Fail("a value shown by v-text / v-html does not appear as given", map[string]string{"oracle": "directive-value", "position": t.name},
+					map[string]any{"template": t.tpl, "value": v, "expected_text": t.want, "parsed_text": sink, "output": out, "err": fmt.Sprint(err)})
 			}
 		}
 	}
